@@ -110,6 +110,9 @@ def run_oracle(ck, fmt_keywords):
         fixed.append(("oracle-keyword-idents", "let f = func `%s` -> 1\n" % kw))
         fixed.append(("oracle-keyword-idents", "from t\nselect {x = `%s`}\n" % kw))
         fixed.append(("oracle-keyword-idents", "from t\nselect {x = t.`%s`.a}\n" % kw))
+    # the identifier alphabet: names with a character of every Unicode general category (where a printer's bare
+    # class can be wider than the lexer's), at alias / identifier / declaration / parameter / argument-name positions
+    fixed += [("oracle-unicode-idents", s) for s in G.unicode_name_sources()]
     # every literal kind, twice (the second one exercises Display of what the first produced)
     for kinds in (["int"], ["float"], ["float0"], ["floatbig"], ["string"], ["raw"], ["date"], ["time"], ["timestamp"], ["unit"], ["bool"], ["null"], ["based"], ["under"], ["exp"]):
         seen = set()
